@@ -7,6 +7,7 @@ Commit.tla  : TLC computes the verdict of Decommit for every tuple x perturbatio
 framedrv    : feeds every vector / pair / case to the REAL pkg/hash and compares with blake3 over the SPEC's bytes,
               plus the adversarial relations instantiated with the rich real types.
 """
+import re
 import json, os, concurrent.futures as cf
 import vlib
 
@@ -175,6 +176,33 @@ def run(tier):
         json.dump(doms[0], fh)
     rep.notes.append("specification printed %d distinct sequences (%d with exact bytes) and %d distinct adversarial pairs" % (len(vs.vectors), n_exact, len(vs.pairs)))
 
+    # inventory: every implementer of hash.WriterToWithDomain in the tree under test against the kinds the run covers
+    covered = {"RID": "rid", "ThresholdWrapper": "threshold", "SigningMessage": "sigmsg", "Number": "round", "BytesWithDomain": "wd",
+               "hash.Commitment": "commitment", "Decommitment": "decommitment", "Exponent": "exponent", "Parameters": "pedersen",
+               "paillier.Ciphertext": "ciphertext", "elgamal.Ciphertext": "elgamal", "PublicKey": "paillierpk", "sch.Commitment": "schcommit",
+               "ID": "id", "IDSlice": "idslice", "Public": "cmppublic"}
+    elsewhere = {"Config": "CMP Config: the session-tag check C09 (Session.tla AuxFields) decides what it must bind",
+                 "messageHash": "unexported FROST type, plain bytes under its own tag; exercised through signing (C11)"}
+    found, unknown = [], []
+    pat = re.compile(r"^func \((?:\w+ )?\*?(\w+)\) Domain\(\) string", re.M)
+    for root, _, files in os.walk(vlib.REPO):
+        if "/.git" in root:
+            continue
+        for f in files:
+            if f.endswith(".go") and not f.endswith("_test.go"):
+                src = open(os.path.join(root, f), errors="replace").read()
+                for m in pat.finditer(src):
+                    t, pkg = m.group(1), os.path.basename(root)
+                    key = t if t in covered or t in elsewhere else "%s.%s" % (pkg, t)
+                    found.append(key)
+                    if key not in covered and key not in elsewhere:
+                        unknown.append("%s (%s)" % (key, os.path.relpath(os.path.join(root, f), vlib.REPO)))
+    rep.notes.append("writer inventory: %d implementers of Domain() in the tree; %d covered by the framing run, %d decided elsewhere (%s)%s"
+                     % (len(found), sum(1 for k in found if k in covered), sum(1 for k in found if k in elsewhere),
+                        "; ".join("%s: %s" % kv for kv in sorted(elsewhere.items())),
+                        "; NOT COVERED (new type): " + ", ".join(unknown) if unknown else ""))
+    if unknown:
+        rep.assumptions.append("hash writers not covered by this run: " + ", ".join(unknown))
     rv = run_driver(rep, [drv, "vectors", "-in", vf], os.path.join(wd, "vectors.res.json"))
     rr = run_driver(rep, [drv, "rich", "-domains", os.path.join(wd, "domains.json"), "-seed", str(sd)], os.path.join(wd, "rich.res.json"))
 
